@@ -556,6 +556,45 @@ def r7_destroy_resets_all(idx, r):
                   msg=f"registration fills `{reg}` but destroyGlobalNuclides does not empty it: after destroy + factory it still holds the previous generation of nuclide objects")
 
 
+def r8_renormalisation_loops(idx, r):
+    """A composition is re-split between two elements by scaling each element's nuclides with `old / (total of that
+    element) * (new share)`. Each such loop must ITERATE the element whose total it divides by: looping over Pu nuclides
+    while dividing by the uranium total rescales the wrong nuclides and leaves the other element untouched (fractions no
+    longer sum to one)."""
+    n = 0
+    selectors = {}
+    for m in idx.modules.values():
+        if not m.name.startswith("armi.materials") or ".tests" in m.name:
+            continue
+        for f in m.all_funcs():
+            totals = {}  # local name -> element symbol of the sum that defines it
+            for st in walk_local(f.node):
+                if isinstance(st, ast.Assign) and len(st.targets) == 1 and isinstance(st.targets[0], ast.Name) and isinstance(st.value, ast.Call) and dotted(st.value.func) == "sum":
+                    syms = [a for c in ast.walk(st.value) if isinstance(c, ast.Call) and call_attr(c) == "getNuclideNames" for a in (list(c.args) + [k.value for k in c.keywords]) if isinstance(a, ast.Constant) and isinstance(a.value, str)]
+                    if len(syms) == 1:
+                        totals[st.targets[0].id] = syms[0].value
+                        how = [("positional" if c.args else c.keywords[0].arg) for c in ast.walk(st.value) if isinstance(c, ast.Call) and call_attr(c) == "getNuclideNames"]
+                        selectors.setdefault(f.qualname, set()).update(how)
+            if len(totals) < 2:
+                continue
+            for lp in [x for x in walk_local(f.node) if isinstance(x, ast.For) and isinstance(x.iter, ast.Call) and call_attr(x.iter) == "getNuclideNames"]:
+                it = [a.value for a in (list(lp.iter.args) + [k.value for k in lp.iter.keywords]) if isinstance(a, ast.Constant) and isinstance(a.value, str)]
+                divs = {x.right.id for x in ast.walk(ast.Module(body=lp.body, type_ignores=[])) if isinstance(x, ast.BinOp) and isinstance(x.op, ast.Div) and isinstance(x.right, ast.Name) and x.right.id in totals}
+                if len(it) != 1 or len(divs) != 1:
+                    continue
+                n += 1
+                d = next(iter(divs))
+                lhow = "positional" if lp.iter.args else lp.iter.keywords[0].arg
+                r.require(lhow in selectors.get(f.qualname, {lhow}), f"{f.qualname}:loop-over-{it[0]}:same-selector", f, node=lp,
+                          msg=f"the totals select the element with getNuclideNames({sorted(selectors.get(f.qualname, []))}=...) but the loop passes `{it[0]}` {lhow}ly, i.e. as a NUCLIDE name: "
+                              "for an element without a natural nuclide of that name (PU) the call raises KeyError, so the modification cannot be applied at all")
+                r.require(totals[d] == it[0], f"{f.qualname}:loop-over-{it[0]}:divides-by-{d}", f, node=lp,
+                          msg=f"the loop runs over the nuclides of `{it[0]}` but rescales them with `{d}`, the total of `{totals[d]}`: the nuclides of `{totals[d]}` are never rescaled "
+                              f"and those of `{it[0]}` are rescaled twice; the mass fractions no longer sum to one")
+    if n < 2:
+        raise AnalysisError(f"only {n} renormalisation loops found (MOX.setMassFracPuO2 expected)")
+
+
 def run(idx, chk):
     chk.explanation = (
         "C19: nuclides.dat, elements.dat, burn-chain.yaml and mcc-nuclides.yaml are parsed as data and linted exhaustively (unique (Z,A,S), N=A-Z, "
@@ -577,3 +616,5 @@ def run(idx, chk):
                  necessary="'every nuclide can be retrieved through each identifier it has, each lookup returns that same nuclide'")
     chk.run_rule("R19.7", "tearing the directory down empties every registry that registration fills (tables, instances, the elements' nuclide lists)", lambda r: r7_destroy_resets_all(idx, r), floor=8,
                  necessary="'each nuclide belongs to the element with its atomic number' and every lookup returns THAT nuclide, also after the directory was rebuilt")
+    chk.run_rule("R19.8", "a loop that renormalises the nuclides of one element divides by that element's own total", lambda r: r8_renormalisation_loops(idx, r), floor=2,
+                 necessary="library materials have mass fractions summing to one, also after an input modification re-splits two elements")
